@@ -280,7 +280,7 @@ func c13JSONSmall(c *gen.Ctx) {
 
 // ---------------------------------------------------------------- generator: random valid JSON near the grammar
 
-var c13AnyValues = []string{`null`, `1`, `true`, `"s"`, `[]`, `{}`, `[null]`, `{"a":1}`, `{"a":1,"a":1}`, `[{"b":[{"c":1,"c":2}]}]`, `-0.5e3`}
+var c13AnyValues = []string{`null`, `1`, `true`, `"s"`, `[]`, `{}`, `[null]`, `{"a":1}`, `{"a":1,"a":1}`, `[{"b":[{"c":1,"c":2}]}]`, `-0.5e3`, `{" k k":[{"c c":1,"c c":2}]}`}
 
 func c13Quote(s string) string {
 	b, _ := json.Marshal(s)
